@@ -264,6 +264,7 @@ def check_clients(rep, res):
         rep.evaluations += n
         rep.count('clients:' + name, n)
         rep.nontrivial(('clients', name))
+    rep.extra['dask_internal_keyerrors'] = res.get('dask_internal', [])
     for f in res['failures']:
         rep.violation('concurrent-use:' + f['object'].split(' ')[0],
                       f"{f['object']}: a client thread did not get the single-threaded answer", f)
